@@ -12,7 +12,7 @@ from ..fmt import pfile
 
 ID = 'C02'
 LEVEL = 'model_checking'
-VARIANTS = ['plain']
+VARIANTS = ['plain', 'asan']
 CHUNK = 32
 ENGINE = 'history-explorer'
 TECHNIQUE = 'exhaustive line-kind histories x option deviations executed on the real assembler against a counter/status model'
